@@ -220,6 +220,108 @@ fn install_times_arm(injector: &mut InjectorPP, arm: usize, n: usize) {
     }
 }
 
+#[inline(never)]
+pub fn ma(x: u32, out: &mut u32) -> u32 {
+    *out = std::hint::black_box(x);
+    77
+}
+#[inline(never)]
+pub fn mu(x: u32, out: &mut u32) {
+    *out = std::hint::black_box(x) + 1;
+}
+#[inline(never)]
+pub unsafe fn ua(x: u32, out: *mut u32) -> u32 {
+    *out = std::hint::black_box(x);
+    78
+}
+#[inline(never)]
+pub unsafe fn uu(x: u32, out: *mut u32) {
+    *out = std::hint::black_box(x) + 2;
+}
+
+pub const MATRIX_ARMS: usize = 12;
+/// has a `when` option (so a non-matching caller makes sense)
+pub fn matrix_arm_has_when(arm: usize) -> bool {
+    matches!(arm, 0 | 1 | 4 | 5)
+}
+
+/// every `times` arm of the safe / unsafe fn kinds, budget 1
+fn install_matrix(injector: &mut InjectorPP, arm: usize) {
+    match arm {
+        0 => injector.when_called(inj::func!(fn(ma)(u32, &mut u32) -> u32)).will_execute(inj::fake!(func_type: fn(x: u32, out: &mut u32) -> u32, when: x == 1, assign: { *out = 9 }, returns: 0xFA, times: 1)),
+        1 => injector.when_called(inj::func!(fn(ma)(u32, &mut u32) -> u32)).will_execute(inj::fake!(func_type: fn(x: u32, out: &mut u32) -> u32, when: x == 1, returns: 0xFA, times: 1)),
+        2 => injector.when_called(inj::func!(fn(ma)(u32, &mut u32) -> u32)).will_execute(inj::fake!(func_type: fn(x: u32, out: &mut u32) -> u32, assign: { *out = 9 }, returns: 0xFA, times: 1)),
+        3 => injector.when_called(inj::func!(fn(ma)(u32, &mut u32) -> u32)).will_execute(inj::fake!(func_type: fn(x: u32, out: &mut u32) -> u32, returns: 0xFA, times: 1)),
+        4 => injector.when_called(inj::func!(fn(mu)(u32, &mut u32))).will_execute(inj::fake!(func_type: fn(x: u32, out: &mut u32) -> (), when: x == 1, assign: { *out = 9 }, times: 1)),
+        5 => injector.when_called(inj::func!(fn(mu)(u32, &mut u32))).will_execute(inj::fake!(func_type: fn(x: u32, out: &mut u32) -> (), when: x == 1, times: 1)),
+        6 => injector.when_called(inj::func!(fn(mu)(u32, &mut u32))).will_execute(inj::fake!(func_type: fn(x: u32, out: &mut u32) -> (), assign: { *out = 9 }, times: 1)),
+        7 => injector.when_called(inj::func!(fn(mu)(u32, &mut u32))).will_execute(inj::fake!(func_type: fn(x: u32, out: &mut u32) -> (), times: 1)),
+        8 => injector.when_called(inj::func!(unsafe{} fn(ua)(u32, *mut u32) -> u32)).will_execute(inj::fake!(func_type: unsafe fn(x: u32, out: *mut u32) -> u32, returns: 0xFA, times: 1)),
+        9 => injector.when_called(inj::func!(unsafe{} fn(ua)(u32, *mut u32) -> u32)).will_execute(inj::fake!(func_type: unsafe fn(x: u32, out: *mut u32) -> u32, assign: { *out = 9 }, returns: 0xFA, times: 1)),
+        10 => injector.when_called(inj::func!(unsafe{} fn(uu)(u32, *mut u32))).will_execute(inj::fake!(func_type: unsafe fn(x: u32, out: *mut u32) -> (), times: 1)),
+        _ => injector.when_called(inj::func!(unsafe{} fn(uu)(u32, *mut u32))).will_execute(inj::fake!(func_type: unsafe fn(x: u32, out: *mut u32) -> (), assign: { *out = 9 }, times: 1)),
+    }
+}
+
+/// call the matrix arm's target; Ok(true) = the fake ran, Ok(false) = the original ran
+fn call_matrix(arm: usize, x: u32) -> Result<bool, ()> {
+    let r = catch_unwind(move || {
+        let mut out = 0u32;
+        match arm {
+            0..=3 => ma(x, &mut out) == 0xFA,
+            4..=7 => {
+                mu(x, &mut out);
+                out != x + 1
+            }
+            8 | 9 => unsafe { ua(x, &mut out) == 0xFA },
+            _ => unsafe {
+                uu(x, &mut out);
+                out != x + 2
+            },
+        }
+    });
+    r.map_err(|_| ())
+}
+
+/// installer + callers for one arm of the matrix; `args[i]` is the argument of caller i (1 matches)
+fn c06m_scenario(arm: usize, args: &[u32]) -> Scenario {
+    let matching = args.iter().filter(|a| **a == 1 || !matrix_arm_has_when(arm)).count();
+    let n = 1usize;
+    let ncallers = args.len();
+    let mut bodies: Vec<Box<dyn FnOnce() + Send>> = Vec::new();
+    bodies.push(Box::new(move || {
+        let mut injector = InjectorPP::new();
+        install_matrix(&mut injector, arm);
+        sched::event_set(0);
+        for c in 0..ncallers {
+            sched::join(1 + c);
+        }
+        let r = catch_unwind(AssertUnwindSafe(move || drop(injector)));
+        if r.is_ok() != (matching == n) {
+            viol("scope-exit-verdict", format!("macro arm #{arm}: {matching} matching call(s) with times: {n}: scope exit {}", if r.is_ok() { "was silent" } else { "panicked" }));
+        }
+    }));
+    for &a in args {
+        bodies.push(Box::new(move || {
+            sched::point("h:before-call");
+            match call_matrix(arm, a) {
+                Ok(true) => {
+                    ADMITTED.fetch_add(1, Ordering::SeqCst);
+                }
+                Ok(false) => {
+                    ODD.fetch_add(1, Ordering::SeqCst);
+                }
+                Err(()) => {
+                    REJECTED.fetch_add(1, Ordering::SeqCst);
+                }
+            }
+        }));
+    }
+    let mut start_after = vec![Some(0); 1 + ncallers];
+    start_after[0] = None;
+    Scenario { bodies, events: 1, sym: vec![usize::MAX; 1 + ncallers], start_after }
+}
+
 fn install_times(injector: &mut InjectorPP, n: usize) {
     match n {
         0 => injector.when_called(inj::func!(fn(cc)(u32) -> u32)).will_execute(inj::fake!(func_type: fn(x: u32) -> u32, when: x == 1, returns: 0xFA, times: 0)),
@@ -344,6 +446,9 @@ fn run_case(c: &Value) -> Value {
     let mk = || -> Scenario {
         if check == "c04" {
             c04_scenario(&spec_from_json(&c["spec"]))
+        } else if check == "c06m" {
+            let args: Vec<u32> = c["args"].as_array().unwrap().iter().map(|x| x.as_u64().unwrap() as u32).collect();
+            c06m_scenario(c["arm"].as_u64().unwrap() as usize, &args)
         } else {
             let calls: Vec<usize> = c["calls"].as_array().unwrap().iter().map(|x| x.as_u64().unwrap() as usize).collect();
             c06_scenario(c["n"].as_u64().unwrap() as usize, &calls, c["symmetric"].as_bool().unwrap_or(false), c["arm"].as_u64().unwrap_or(0) as usize)
@@ -368,6 +473,16 @@ fn run_case(c: &Value) -> Value {
         if !ex.deadlock {
             if target_image(shared_fn as *const () as u64) != pre_shared || target_image(cc as *const () as u64) != pre_cc {
                 v.push(("not-restored-after-all-threads-finished".into(), "the function's bytes differ from the pre-image after every thread has finished".into()));
+            }
+            if check == "c06m" {
+                let arm = c["arm"].as_u64().unwrap() as usize;
+                let args: Vec<u32> = c["args"].as_array().unwrap().iter().map(|x| x.as_u64().unwrap() as u32).collect();
+                let matching = args.iter().filter(|a| **a == 1 || !matrix_arm_has_when(arm)).count() as u32;
+                let (a, r, o) = (ADMITTED.load(Ordering::SeqCst), REJECTED.load(Ordering::SeqCst), ODD.load(Ordering::SeqCst));
+                let want_a = matching.min(1);
+                if a != want_a || o != 0 || a + r != args.len() as u32 {
+                    v.push(("admission-count".into(), format!("macro arm #{arm}, caller arguments {args:?} against times: 1: {a} admitted, {r} rejected, {o} ran the original (expected {want_a} admitted, {} rejected)", args.len() as u32 - want_a)));
+                }
             }
             if check == "c06" {
                 let n = c["n"].as_u64().unwrap() as u32;
@@ -512,6 +627,15 @@ fn cases(check: &str, tier: &str) -> Vec<Value> {
                         v.push(json!({"check": "c06", "n": n, "calls": calls, "symmetric": false, "bound": bound, "cap": cap}));
                     }
                 }
+            }
+        }
+        // the arm matrix: every `times` arm of the safe / unsafe fn kinds, two or three concurrent callers,
+        // including a non-matching caller for the arms with `when` (every schedule)
+        for arm in 0..MATRIX_ARMS {
+            v.push(json!({"check": "c06m", "arm": arm, "args": [1, 1], "bound": 64, "cap": 100_000}));
+            if matrix_arm_has_when(arm) {
+                v.push(json!({"check": "c06m", "arm": arm, "args": [2, 1], "bound": 64, "cap": 100_000}));
+                v.push(json!({"check": "c06m", "arm": arm, "args": [2, 2, 1], "bound": if thorough { 64 } else { 3 }, "cap": 100_000}));
             }
         }
         // the same budget through two other arms of the macro (every schedule, two callers)
